@@ -163,9 +163,47 @@ def run_case(case, sched, compare, want=None, m1=False):
                     except Exception as e:
                         info = _exc_info(e)
                         v = {"class": "dask_raises:" + info["type"], "exc": info}
+                if v is None and case.get("followup"):
+                    # a second call on the SAME raster objects (a user keeps working with them): other
+                    # parameters and/or one raster swapped for another of the same shape and chunks
+                    v = _followup(case, rasters, compare)
                 if v is not None:
                     v["after_abort"] = bool(aborted)
                     out["status"] = "violation"
                     out["violation"] = v
         out["aborted"] = aborted
     return out
+
+
+def followup_case(case):
+    fu = case["followup"]
+    c2 = {"op": case["op"], "variant": case.get("variant"), "params": fu["params"], "dask_config": case.get("dask_config"),
+          "rasters": [r if fr is None else fr for r, fr in zip(case["rasters"], fu.get("rasters") or [None] * len(case["rasters"]))]}
+    return c2
+
+
+def _followup(case, rasters, compare):
+    c2 = followup_case(case)
+    want2, why = numpy_reference(c2)
+    if why:
+        return None
+    fu = case["followup"]
+    rs2 = []
+    fresh, _ = build_with_bases(c2, "dask")
+    for k, r in enumerate(rasters):
+        swapped = (fu.get("rasters") or [None] * len(rasters))[k] is not None
+        rs2.append(fresh[k] if swapped else r)
+    try:
+        got2 = materialise(OPS[c2["op"]](rs2, c2["params"]))
+    except (StepCap, InjectedFault):
+        return None
+    except Exception as e:
+        if _from_harness(e):
+            raise
+        info = _exc_info(e)
+        return {"class": "followup_dask_raises:" + info["type"], "exc": info}
+    v = compare(c2, got2, want2)
+    if v is not None:
+        v = dict(v)
+        v["class"] = "followup_" + v["class"]
+    return v
